@@ -88,6 +88,14 @@ macro_rules! with_elem {
     };
 }
 
+/// Every cell of the parent buffer needs its own identity in the element type (8-bit types hold few).
+fn id_space_check<T: Elem>(cells: usize) {
+    if T::from_id(cells as i64).to_id() != cells as i64 {
+        eprintln!("case needs {} distinct identities, more than {} can hold: generator error", cells, T::NAME);
+        std::process::exit(2);
+    }
+}
+
 fn view1_json<T>(base: *const T, v: &ArrayViewMut1<'_, T>) -> Value {
     view1_geom(base, v.as_ptr(), v.len(), v.strides()[0])
 }
@@ -114,6 +122,7 @@ fn remove_nan_1d<T: Elem>(case: &Value, out: &mut Vec<Value>) {
     let lane: Vec<T> = lane_ids.iter().map(|&k| T::from_id(if k == 0 { 0 } else { 1 })).collect();
     // distinct identities: cell k holds id k+1 unless missing
     let mut st = Strided::new(&lane, stride, off, |k| T::from_id(k as i64 + 1));
+    id_space_check::<T>(st.parent.len());
     for t in 0..st.n {
         let a = st.addr(t);
         if lane_ids[t] != 0 {
@@ -142,6 +151,7 @@ fn remove_nan_nd<T: Elem>(case: &Value, out: &mut Vec<Value>) {
     let data_ids = jints(&case["data"]);
     let data: Vec<T> = data_ids.iter().map(|&k| T::from_id(if k == 0 { 0 } else { 1 })).collect();
     let mut parent = lay.build(&data, |k| T::from_id(k as i64 + 1));
+    id_space_check::<T>(parent.len());
     let base = parent.as_ptr();
     // distinct identities for non-missing cells of the view
     {
@@ -211,6 +221,9 @@ pub fn gen(seed: u64, count: usize, tier: &str, params: &Params) -> Vec<Value> {
                 let lay = random_lay(&mut rng, &shape, fancy);
                 let n: usize = shape.iter().product();
                 let data: Vec<i64> = (0..n).map(|_| miss(&mut rng)).collect();
+                // 8-bit element types cannot give every cell of a large parent its own identity
+                let cells: usize = lay.pshape.iter().product();
+                let ty = if cells > 120 && (ty == "opt_u8" || ty == "opt_i8") { "opt_i16" } else { ty };
                 cases.push(json!({"ev": "remove_nan_nd", "ty": ty, "lay": lay.to_json(), "axis": rng.below(nd as u64), "data": data}));
             }
         }
